@@ -11,12 +11,12 @@ from .psi import C, T, is_int_const
 TIMESPEC = 'nix::sys::time::TimeSpec'
 LIBC_TIMESPEC = 'libc::timespec'
 
-PINNED = {  # crate -> version the summaries were written against
+PINNED = {  # crate -> versions the summaries were written against (None: any 0.x/1.x patch level of that line)
     'nix': ('0.26.4', '0.27.1'),
-    'libc': None,
+    'libc': ('0.2.',),
     'chrony-candm': ('0.1.1',),
-    'errno': ('0.3.0',),
-    'byteorder': None,
+    'errno': ('0.3.0', '0.3.'),
+    'byteorder': ('1.',),
 }
 
 
